@@ -122,7 +122,26 @@ func (Engine) RunOne(t *core.Tape, prop, tier string, info *core.RunInfo) *core.
 	info.Config["corrupt_pm"], info.Config["echo"], info.Config["inject"], info.Config["crash_pm"], info.Config["silent_participants"] = corruptPm, echo, nInject, crashPm, nByz
 
 	privs, pubs := kit.KeyPairs(suite, t, "keys", n)
+	// the two distributed keys need not have the threshold of the signing session: one of them may
+	// come from a DKG with a LOWER threshold (the partial signatures then lie on a polynomial of
+	// degree th-1 all the same, and th of them are needed). Seed C12g: Signature() interpolated
+	// with the long-term key's threshold instead of the session's.
+	thOf := map[byte]int{1: th, 2: th, 3: th, 4: th}
+	if th > 2 && t.Bool("cfg.mixedt", 250) {
+		lower := t.Range("cfg.mixedt", 2, th-1)
+		if t.Bool("cfg.mixedt", 500) {
+			thOf[2], thOf[3], thOf[4] = lower, lower, lower // the one-time keys
+		} else {
+			thOf[1] = lower // the long-term key
+		}
+		info.Faults["keys-with-different-thresholds"]++
+		info.Config["t_long"], info.Config["t_random"] = thOf[1], thOf[2]
+	}
 	mk := func(salt byte) ([]dss.DistKeyShare, error) {
+		th := thOf[salt]
+		if th == 0 {
+			th = thOf[2]
+		}
 		out := make([]dss.DistKeyShare, n)
 		if useRabin {
 			ks, err := kit.RabinHonest(privs, pubs, th)
